@@ -35,6 +35,8 @@ def judgeConfig (fields : List String) : String :=
       let trip := (if cls = "ok" ∧ dangling then " TRIP accepted_dangling" else "")
         ++ (if cls = "ok" ∧ probes ≠ "ok" then " TRIP accepted_unresolvable:" ++ probes else "")
         ++ (if cls = "ok" ∧ rt ≠ "same" then " TRIP roundtrip_differs:" ++ rt else "")
+        -- … and is well-formed in every field (the generator knows which field it damaged)
+        ++ (if cls = "ok" ∧ sok ≠ "1" then " TRIP accepted_malformed:" ++ str defect else "")
       if mcls = cls then s!"ok {str defect}-{cls} 1{trip}" else s!"DIFF config model={mcls} impl={cls} defect={str defect}{trip}"
     | _, _, _, _, _, _ => "BADLINE config parse"
   | _ => "BADLINE config fields"
